@@ -651,7 +651,16 @@ def c03_l2_scenario(binary, work, idx, rng, merged):
     cls = "mode%d:enable=%s:modeFault=%s:pwmFault=%s:signals=%d:phase=%s" % (orig_mode, has_enable, mode_fault, pwm_fault, nsig, phase)
     desktop = rng.choice(l2.DESKTOPS)
     case["desktop_session"] = desktop
-    d = l2.Daemon(binary, sd, l2_basic_config(sd, fans_yaml, more_sensors=more_sensors, more_curves=more_curves), tree.root, driver={"rules": rules, "plants": plants}, timescale=10, desktop=desktop)
+    # the REST API and / or the Prometheus endpoint are switched on in half of the scenarios (their servers are part of
+    # what is started and stopped with the daemon)
+    web = ["none", "none", "api", "statistics", "both", "none", "statistics", "api"][idx % 8] if idx < 16 else rng.choice(["none", "api", "statistics", "both"])
+    extra = ""
+    if web in ("api", "both"):
+        extra += "api:\n  enabled: true\n  host: 127.0.0.1\n  port: %d\n" % l2.free_port()
+    if web in ("statistics", "both"):
+        extra += "statistics:\n  enabled: true\n  port: %d\n" % l2.free_port()
+    case["web_endpoints"] = web
+    d = l2.Daemon(binary, sd, l2_basic_config(sd, fans_yaml, extra=extra, more_sensors=more_sensors, more_curves=more_curves), tree.root, driver={"rules": rules, "plants": plants}, timescale=10, desktop=desktop)
     try:
         marker, delay = {
             "fatal-sensor-error": (r"Starting controller loop", 0.4),
@@ -1043,6 +1052,15 @@ def c15_l2_scenario(binary, work, idx, rng, merged):
         entries.reverse()  # the first four scenarios: entries not in the order of their ids
     fans_yaml = "".join(entries)
     cfg = l2_basic_config(sd, fans_yaml)
+    # a third of the scenarios: the database path is relative (to the directory fan2go is started from, the same for the
+    # daemon and the CLI) and the configuration file lives in another directory
+    rel_db = idx % 3 == 1
+    cfg_dir = None
+    if rel_db:
+        cfg = cfg.replace("dbPath: %s/fan2go.db" % sd, "dbPath: state/fan2go.db")
+        cfg_dir = os.path.join(sd, "conf")
+        os.makedirs(cfg_dir, exist_ok=True)
+        os.makedirs(os.path.join(sd, "state"), exist_ok=True)
     pwm1 = os.path.join(chip, "pwm1")
     rpm1 = os.path.join(chip, "fan1_input")
     ff = os.path.join(sd, "filefan")
@@ -1052,7 +1070,10 @@ def c15_l2_scenario(binary, work, idx, rng, merged):
     if idx < 4:
         # one `fan reset` / `fan init` of each fan between two starts
         ops, forced = ["start", ["reset", "reset", "init", "init"][idx], "start"], ["f1", "ff", "f1", "ff"][idx]
-    case = {"pwmMap": pwm_map, "minMax": min_max, "ops": ops, "fan_ids_in_configuration_order": re.findall(r"- id: (\S+)", fans_yaml)}
+    if rel_db and (idx == 1 or rng.random() < 0.5):
+        # the user characterises a fan with `fan init` before the daemon runs for the first time
+        ops = ["init"] + ops[(2 if idx == 1 else 0):]
+    case = {"relative_dbPath_and_configuration_elsewhere": rel_db, "pwmMap": pwm_map, "minMax": min_max, "ops": ops, "fan_ids_in_configuration_order": re.findall(r"- id: (\S+)", fans_yaml)}
     cls = "pwmMap=%s:minMax=%s" % (pwm_map, min_max)
     analysed = {"f1": False, "ff": False}
     trace = []
@@ -1061,7 +1082,7 @@ def c15_l2_scenario(binary, work, idx, rng, merged):
             which = forced or rng.choice(["f1", "ff"])
             dj = os.path.join(sd, "cli%d.driver.json" % k)
             l2.write(dj, json.dumps(dict(driver, log=os.path.join(sd, "cli%d.events" % k))))
-            cfgp = os.path.join(sd, "cli.yaml")
+            cfgp = os.path.join(cfg_dir or sd, "cli.yaml")
             l2.write(cfgp, cfg)
             rc, out = run_cli(binary, sd, cfgp, tree.root, ["fan", "--id", ids[which], op], timeout=120, driver=dj)
             if rc is None or l2.has_panic(out or ""):
@@ -1070,7 +1091,7 @@ def c15_l2_scenario(binary, work, idx, rng, merged):
             analysed[which] = (op == "init")
             trace.append({"op": "%s %s" % (op, which), "exit": rc})
             continue
-        d = l2.Daemon(binary, sd, cfg, tree.root, driver=driver, timescale=10, name="start%d" % k)
+        d = l2.Daemon(binary, sd, cfg, tree.root, driver=driver, timescale=10, name="start%d" % k, cfg_dir=cfg_dir)
         try:
             if not d.wait_for(r"(?s)(Starting controller loop.*){2}", 120):
                 merged.inconclusive.append("C15 L2 scenario %d: regulation did not begin: %s" % (idx, d.output()[-500:].replace("\n", " | ")))
